@@ -15,5 +15,6 @@ func NewDialog(callID string, localTag string, remoteTag string) *Dialog {
 }
 
 func (d *Dialog) String() string {
-	return fmt.Sprintf("%s-%s-%s", d.callID, d.localTag, d.remoteTag)
+	// the components (Call-ID, tags, URIs) may contain '-' but never a blank
+	return fmt.Sprintf("%s %s %s", d.callID, d.localTag, d.remoteTag)
 }
